@@ -202,8 +202,15 @@ impl C10 {
         if let Some(c) = lib(ctx, "lax::shr", "any", &input, || &lf >> &lg) {
             ctx.check(c.is_some() == types_match, "lax::shr/defined-iff-types-match/value/any", || json!({"input": input(), "observed_some": c.is_some()}));
             if let (Some(c), Some(w), true) = (&c, &raw_want, types_match) {
+                // how the composite is presented (which nodes are already merged, which pairs are pending, in what
+                // order) is the implementation's business: well-formedness is demanded, the presentation only recorded
                 let got = from_lax_raw(c);
-                ctx.check(same_lax_up_to_pairs(&got, w) && wf_lax(c).is_empty(), "lax::shr/juxtaposition-plus-boundary-pairs/value/any", || json!({"input": input(), "observed": show_lax(&got), "expected": show_lax(w)}));
+                ctx.check(wf_lax(c).is_empty(), "lax::shr/well-formed/value/any", || json!({"input": input(), "observed": show_lax(&got)}));
+                ctx.count(if same_lax_up_to_pairs(&got, w) { "observed:shr_is_juxtaposition_plus_boundary_pairs" } else { "observed:shr_presented_otherwise" });
+                if let Some(p) = strictified(ctx, "lax::shr", "any", c, &input) {
+                    let want = sf_.compose(&sg_).expect("types match");
+                    expect_iso(ctx, "lax::shr", "strictify-commutes", "types_match", &p, &want, &input);
+                }
             }
         }
         // lax_compose: defined iff the arities match
@@ -212,13 +219,15 @@ impl C10 {
             if let (Some(c), Some(w)) = (&c, &raw_want) {
                 let got = from_lax_raw(c);
                 let cls = if types_match { "types_match" } else { "label_mismatch" };
-                ctx.check(same_lax_up_to_pairs(&got, w) && wf_lax(c).is_empty(), &format!("lax_compose/juxtaposition-plus-boundary-pairs/value/{}", cls), || json!({"input": input(), "observed": show_lax(&got), "expected": show_lax(w)}));
+                ctx.check(wf_lax(c).is_empty(), &format!("lax_compose/well-formed/value/{}", cls), || json!({"input": input(), "observed": show_lax(&got)}));
+                ctx.count(if same_lax_up_to_pairs(&got, w) { "observed:lax_compose_is_juxtaposition_plus_boundary_pairs" } else { "observed:lax_compose_presented_otherwise" });
                 if !types_match {
-                    // a boundary position joins two different labels: the composite cannot be quotiented
+                    // a boundary position joins two different labels; what the unchecked form then returns is not
+                    // specified beyond being defined -- whether the mismatch surfaces at quotient() is recorded
                     let mut c2 = c.clone();
                     if let Some(q) = lib(ctx, "quotient", "label_mismatch", &input, || c2.quotient().is_ok()) {
                         ctx.count("law:label-mismatch-surfaces-at-quotient");
-                        ctx.check(!q, "lax_compose/label-mismatch-surfaces-at-quotient/value/label_mismatch", || json!({"input": input(), "observed": "quotient succeeded"}));
+                        ctx.count(if q { "observed:label_mismatch_quotient_succeeded" } else { "observed:label_mismatch_quotient_failed" });
                     }
                 }
             }
@@ -334,7 +343,7 @@ impl Monitor for C10 {
          match in arity only (one label differs), or differ in arity: compose / >> defined iff types match, lax_compose iff arities match, strict(f;g) isomorphic to the model \
          composite and to strict(f);strict(g) computed by the library, same for tensor and dagger; tensor_assign / append / coproduct_assign compared by derived equality with the pure \
          operations, append must return exactly the offset interfaces; (c) singleton, identity, twist, spider and unit compared after strictification. non-trivial = >=1 hyperedge and \
-         >=1 boundary node; distinct = hash of the instance. Also: every operand's to_strict is compared with the model quotient and is_strict with the absence of pending pairs; lax_compose and >> are compared field by field with juxtaposition + one pending pair per boundary position (pairs as a multiset of unordered pairs), also when the labels differ, where the mismatch must surface as a failing quotient; in-place variants compared on raw fields; round trips of diagrams of up to 40 nodes."
+         >=1 boundary node; distinct = hash of the instance. Also: every operand's to_strict is compared with the model quotient and is_strict with the absence of pending pairs; lax_compose and >> results are walked for well-formedness and judged after strictification; how the composite is presented (juxtaposition + one pending pair per boundary position, or otherwise) and whether a label mismatch surfaces at quotient() are recorded as observations, not demanded; in-place variants compared on raw fields; round trips of diagrams of up to 40 nodes."
     }
     fn corpus_len(&self) -> u64 {
         4
